@@ -465,14 +465,21 @@ def pytest_sessionfinish(session, exitstatus):
                     )
                     continue
 
+                # the code with the changes which are already approved ...
+                approved = ChangeRecorder()
+                apply_all(used_changes, approved)
+
+                # ... and with the changes of this category. All changes have
+                # to be applied together, because changes of the same
+                # list/dict/call are merged into one edit.
                 cr = ChangeRecorder()
-                apply_all(used_changes, cr)
-                cr.virtual_write()
-                apply_all(changes[flag], cr)
+                apply_all(used_changes + changes[flag], cr)
 
                 any_changes = False
 
                 for file in cr.files():
+                    # show only the difference to the approved changes
+                    file.source = approved.get_source(file.filename).new_code()
                     diff = file.diff()
                     if diff:
                         header()
